@@ -7,6 +7,54 @@ set_option linter.unusedSimpArgs false
 namespace Zrnt.Pool
 open Zrnt Zrnt.Pool.Spec
 
+/-! ## notation for the corollaries (C20) -/
+
+/-- two attestation data used in examples and witnesses -/
+def exD1 : AttData := ⟨1, 0, 0, 1⟩
+def exD2 : AttData := ⟨1, 0, 0, 2⟩
+
+/-- the model state reached by `ops` from the constructors -/
+abbrev reach (ops : List Op) : Pools := (Pools.run Cfg.fixed (Pools.new Cfg.fixed) ops).1
+/-- the model's answer to `op` in state `w` -/
+abbrev answer (w : Pools) (op : Op) : Out := (w.step Cfg.fixed op).2
+/-- the model state after `op` -/
+abbrev after (w : Pools) (op : Op) : Pools := (w.step Cfg.fixed op).1
+/-- the model state after `ops` -/
+abbrev afterAll (w : Pools) (ops : List Op) : Pools := (w.run Cfg.fixed ops).1
+
+/-- the specification state that belongs to `reach ops` -/
+abbrev sreach (ops : List Op) : SPools := (SPools.run SPools.new ops).1
+
+theorem reach_related (ops : List Op) : PoolsInv (reach ops) (sreach ops) := (run_sim poolsInv_new ops).1
+
+theorem after_related {w : Pools} {sw : SPools} (h : PoolsInv w sw) (op : Op) :
+    PoolsInv (after w op) (sw.step op).1 := (step_sim h op).1
+
+theorem afterAll_related {w : Pools} {sw : SPools} (h : PoolsInv w sw) (ops : List Op) :
+    PoolsInv (afterAll w ops) (sw.run ops).1 := (run_sim h ops).1
+
+theorem answer_equiv {w : Pools} {sw : SPools} (h : PoolsInv w sw) (op : Op) :
+    OutEquiv (answer w op) (sw.step op).2 := (step_sim h op).2
+
+theorem spec_ok_of_answer_ok {w : Pools} {sw : SPools} (h : PoolsInv w sw) {op : Op}
+    (hok : answer w op = .ok) : (sw.step op).2 = .ok := by
+  have := answer_equiv h op
+  rw [hok] at this
+  exact OutEquiv.ok_iff.mp this.symm
+
+theorem answer_err_of_spec_err {w : Pools} {sw : SPools} (h : PoolsInv w sw) {op : Op}
+    (herr : (sw.step op).2 = .err) : answer w op = .err := by
+  have := answer_equiv h op
+  rw [herr] at this
+  exact OutEquiv.err_iff.mp this
+
+theorem answer_ok_of_spec_ok {w : Pools} {sw : SPools} (h : PoolsInv w sw) {op : Op}
+    (hok : (sw.step op).2 = .ok) : answer w op = .ok := by
+  have := answer_equiv h op
+  rw [hok] at this
+  exact OutEquiv.ok_iff.mp this
+
+
 /-! ## positions in equivalent answer streams -/
 
 theorem outsEquiv_getElem? {l1 l2 : List Out} (h : OutsEquiv l1 l2) (j : Nat) (b : Out)
@@ -552,6 +600,7 @@ theorem select_spec' {b : MsgBuf} (hn : b.keys.Nodup) (hkey : ∀ e ∈ b.entrie
         exfalso
         apply GoMap.get?_eq_none_iff.mp hg
         exact List.mem_map.mpr ⟨e, he, by rw [hkey e he, hv']⟩
-      simp only [Cfg.fixed, if_true, ih, Spec.select, hnone, Bool.false_eq_true, if_false]
+      have hcfg : Cfg.fixed.selectSkipsMissing = true := rfl
+      simp only [hcfg, if_true, ih, Spec.select, hnone, Bool.false_eq_true, if_false]
 
 end Zrnt.Pool
